@@ -18,6 +18,7 @@ import numpy as np
 
 from harness import common, gen
 from harness.props.c19 import phase_close
+from harness.scripted import enumerate_branches
 
 MODULES = ['CirqVerif.Props.C17', 'CirqVerif.Props.C17b', 'NonVacuity.ComplexModel']
 
@@ -219,9 +220,19 @@ def check_ionq_results(ctx, cirq, cirq_ionq, n):
             res = job.results()
             cr = res.to_cirq_result() if backend.startswith('qpu') else res.to_cirq_result(seed=rng.randrange(2**31))
             rows = list(zip(*[[tuple(int(b) for b in row) for row in cr.measurements[k]] for k in keys]))
+            exact = None
+            if not backend.startswith('qpu'):
+                # the exact distribution of one sampled shot, by enumerating the draws of a scripted generator
+                def once(prng, res=res, keys=keys):
+                    one = res.to_cirq_result(seed=prng, override_repetitions=1)
+                    return tuple(tuple(int(b) for b in one.measurements[k][0]) for k in keys)
+                try:
+                    exact = enumerate_branches(once, max_branches=200)
+                except (RuntimeError, TypeError, AttributeError) as e:
+                    ctx.count('ionq_exact_skipped', type(e).__name__)
             reqs.append({'p': 'C17', 'op': 'le_bits', 'n': nq, 'values': [int(v) for v in hist]})
-            meta.append((backend, nq, keys, hist, shots, rows))
-    for (backend, nq, keys, hist, shots, rows), out in zip(meta, ctx.driver.ask(reqs)):
+            meta.append((backend, nq, keys, hist, shots, rows, exact))
+    for (backend, nq, keys, hist, shots, rows, exact), out in zip(meta, ctx.driver.ask(reqs)):
         # the model: outcome integer -> bit of qubit k (little endian) -> the bits of every key's targets
         expect = {}
         for (v, p), bits in zip(hist.items(), out):
@@ -235,6 +246,10 @@ def check_ionq_results(ctx, cirq, cirq_ionq, n):
         if bad:
             ctx.report_witness('ionq:results:' + backend.split('.')[0], 'converted results contain an outcome that the histogram does not (bits assigned to the wrong key or qubit)',
                                dict(rep, impl_out=[sorted(map(str, got))[:8]], spec_out=[sorted(map(str, expect))[:8]]))
+        elif exact is not None and any(abs(exact.get(r, 0.0) - pr) > 1e-9 for r, pr in list(expect.items()) + [(r, expect.get(r, 0.0)) for r in exact]):
+            ctx.count('check', 'ionq-results:simulator-weights')
+            ctx.report_witness('ionq:results:simulator-weights', 'a shot sampled from simulator probabilities has another distribution than the histogram (weights attached to the wrong outcomes)',
+                               dict(rep, impl_out=[sorted((str(r), round(p, 9)) for r, p in exact.items())], spec_out=[sorted((str(r), round(p, 9)) for r, p in expect.items())]))
         elif backend.startswith('qpu') and (sum(got.values()) != shots or any(abs(c - shots * expect[r]) > len(hist) for r, c in got.items())):
             ctx.report_witness('ionq:results:counts', 'converted QPU results do not reproduce the histogram counts', dict(rep, impl_out=[sorted((str(r), c) for r, c in got.items())], spec_out=[sorted((str(r), p) for r, p in expect.items())]))
 
@@ -258,6 +273,8 @@ def check_aqt(ctx, cirq, n):
             if k == 2:
                 g = rng.choice([cirq.XX**e, cirq.XXPowGate(exponent=e, global_shift=gen.rand_shift(rng)), cirq.ms(rng.uniform(-2, 2))])
             else:
+                if rng.random() < 0.2:
+                    e = rng.choice([1.0, -1.0, 0.5, -0.5, 2.0])  # full and half pulses about an arbitrary axis
                 g = rng.choice([cirq.Z**e, cirq.ZPowGate(exponent=e, global_shift=gen.rand_shift(rng)), cirq.PhasedXPowGate(phase_exponent=gen.rand_exponent(rng), exponent=e),
                                 cirq.PhasedXPowGate(phase_exponent=rng.uniform(-2, 2), exponent=e, global_shift=gen.rand_shift(rng)), cirq.rz(rng.uniform(-5, 5))])
             ops.append(g.on(*t))
@@ -289,6 +306,21 @@ def check_aqt(ctx, cirq, n):
                                theorem_or_correspondence='Spec.Vendor.aqtMatrix'))
             continue
         got, want = mat(v_out['matrix']), mat(c_out)
+        # the local stand-in for the AQT service reads the same operation list: the circuit it runs must mean what the list means
+        try:
+            from cirq_aqt.aqt_device import AQTSimulator
+            nq_ = len(got).bit_length() - 1
+            sim_ = AQTSimulator(num_qubits=nq_, simulate_ideal=True)
+            sim_.generate_circuit_from_list(json.dumps(payload))
+            body = cirq.Circuit(op for op in sim_.circuit.all_operations() if not cirq.is_measurement(op))
+            qs_ = cirq.LineQubit.range(nq_)
+            local_u = body.unitary(qubit_order=qs_, qubits_that_should_be_present=qs_)
+            ctx.count('check', 'aqt-local-simulator')
+            if not phase_close(local_u, got, 1e-6):
+                ctx.report_witness('aqt:local-simulator', 'the local AQT simulator runs another circuit than the operation list describes (AQT gate definitions)',
+                                   dict(rep, impl_out=[str(np.round(local_u, 5).tolist())[:1500]], spec_out=[str(np.round(got, 5).tolist())[:1500]], theorem_or_correspondence='Spec.Vendor.aqtMatrix'))
+        except (ImportError, AttributeError, TypeError) as e:
+            ctx.count('aqt_local_skipped', type(e).__name__)
         if not phase_close(got, want, 1e-6):
             ctx.report_witness('aqt:unitary', 'the AQT operation list, read with AQT\'s gate definitions, is not the unitary of the circuit (up to global phase)',
                                dict(rep, impl_out=[str(np.round(got, 5).tolist())[:1500]], spec_out=[str(np.round(want, 5).tolist())[:1500]], theorem_or_correspondence='Spec.Vendor vs applyOps'))
